@@ -97,7 +97,7 @@ func FinishVoid(fns ...func()) {
 // ForEach maps all elements from given generate but no output.
 func ForEach[T any](generate GenerateFunc[T], mapper ForEachFunc[T], opts ...Option) {
 	options := buildOptions(opts...)
-	panicChan := &onceChan{channel: make(chan any)}
+	panicChan := &onceChan{channel: make(chan any, 1)}
 	source := buildSource(generate, panicChan)
 	collector := make(chan any)
 	done := make(chan struct{})
@@ -130,7 +130,7 @@ func ForEach[T any](generate GenerateFunc[T], mapper ForEachFunc[T], opts ...Opt
 // and reduces the output elements with given reducer.
 func MapReduce[T, U, V any](generate GenerateFunc[T], mapper MapperFunc[T, U], reducer ReducerFunc[U, V],
 	opts ...Option) (V, error) {
-	panicChan := &onceChan{channel: make(chan any)}
+	panicChan := &onceChan{channel: make(chan any, 1)}
 	source := buildSource(generate, panicChan)
 	return mapReduceWithPanicChan(source, panicChan, mapper, reducer, opts...)
 }
@@ -138,7 +138,7 @@ func MapReduce[T, U, V any](generate GenerateFunc[T], mapper MapperFunc[T, U], r
 // MapReduceChan maps all elements from source, and reduce the output elements with given reducer.
 func MapReduceChan[T, U, V any](source <-chan T, mapper MapperFunc[T, U], reducer ReducerFunc[U, V],
 	opts ...Option) (V, error) {
-	panicChan := &onceChan{channel: make(chan any)}
+	panicChan := &onceChan{channel: make(chan any, 1)}
 	return mapReduceWithPanicChan(source, panicChan, mapper, reducer, opts...)
 }
 
